@@ -26,10 +26,17 @@ def cases(shard):
         c["profile"] = cfg[0]
         c["uncompute"] = cfg[1]
         c["key"] = "%s|unc=%d|%s" % (cfg[0], int(cfg[1]), c["src"])
-        yield c
-        if shard["fam"] in ("T", "I1") and shard.get("kind", "d1") == "d1" and cfg[0] == "default":
+        hist = shard["fam"] in ("T", "I1", "M") and shard.get("kind", "d1") == "d1" and cfg[0] == "default"
+        if hist:
+            # first, so that the compilation with the opposite flag is the first one this process sees for this source
             r = dict(c)
-            r["recompile"] = True
+            r["recompile"] = "fresh"
+            r["key"] = "after-opposite|" + c["key"]
+            yield r
+        yield c
+        if hist:
+            r = dict(c)
+            r["recompile"] = "same"
             r["key"] = "recompile|" + c["key"]
             yield r
 
@@ -37,7 +44,11 @@ def cases(shard):
 def compile_case(case):
     """Returns (qf, None) or (None, result-dict for a rejection)."""
     try:
-        if case.get("recompile"):
+        if case.get("recompile") == "fresh":
+            # the same source compiled into ANOTHER object with the opposite flag just before
+            H.compile_src(case["src"], case["profile"], not case["uncompute"])
+            qf = H.compile_src(case["src"], case["profile"], case["uncompute"])
+        elif case.get("recompile"):
             # the same object compiled first with the opposite flag, then with the wanted one
             qf = H.compile_src(case["src"], case["profile"], not case["uncompute"])
             qf.compile("internal", uncompute=case["uncompute"])
